@@ -88,17 +88,23 @@ def apply_uf(name, buf, nout):
     return split(out, nout)
 
 
-def assume_collision_free(prefixes, same_shape_only=()):
+def assume_collision_free(prefixes, same_shape_only=(), trunc=None):
     """collision resistance as a path assumption: over all applications made
     so far on this path of functions whose name starts with one of
     `prefixes` (one family per prefix: all input lengths together), equal
     outputs imply equal inputs (and equal input length; for prefixes listed
     in same_shape_only just within one function).  Incremental: pairs already
     constrained on this path are not added again.  Returns the number of
-    constraints added."""
+    constraints added.  trunc=k: already the first k output bytes do not
+    collide (truncated MACs / HKDF outputs)."""
     c = Ctx.cur
     if is_concrete_mode() or c is None:
         return 0
+
+    def head(out, nout):
+        if trunc is None or nout <= trunc:
+            return out
+        return z3.Extract(8 * nout - 1, 8 * (nout - trunc), out)
     apps = getattr(c, "uf_apps", [])
     done = getattr(c, "uf_cf_done", None)
     if done is None:
@@ -120,9 +126,10 @@ def assume_collision_free(prefixes, same_shape_only=()):
                 if a[2] != b[2]:
                     continue
                 if a[0] == b[0] and a[1] == b[1]:
-                    assume(z3.Implies(a[4] == b[4], a[3] == b[3]))
+                    assume(z3.Implies(head(a[4], a[2]) == head(b[4], b[2]),
+                                      a[3] == b[3]))
                     n += 1
                 elif pre not in same_shape_only:
-                    assume(a[4] != b[4])
+                    assume(head(a[4], a[2]) != head(b[4], b[2]))
                     n += 1
     return n
